@@ -753,6 +753,10 @@ def _parse_auto_apply_args(argspec, commandline_args, namespace, arg_mode="auto"
             if not is_identifier(argname):
                 raise ParseError("Invalid option name %s" % (argname,))
             matched_argnames = prefix2argname.get(argname, [])
+            if argname in matched_argnames:
+                # An exact parameter name wins over longer names that it is
+                # a prefix of (``def f(x, xy)``: ``--x`` means ``x``).
+                matched_argnames = [argname]
             if len(matched_argnames) == 1:
                 argname, = matched_argnames
             elif len(matched_argnames) == 0:
